@@ -178,10 +178,12 @@ fn c06_quiescent(f: &Facts, sc: &Sc, now: u64) {
 			}
 		}
 	}
-	// (c) killed and reaped once the grace period has elapsed
+	// (c) killed and reaped once the grace period has elapsed — "when the grace period
+	// elapses" is read with one tick of tolerance (a safety margin on the timer is not a
+	// violation of this property; C07 / C09 pin the ticket to the expiry itself)
 	if sc.op_fault.is_none() {
 		for (ps, t0, c, sig) in &f.gsigs {
-			if now >= t0 + g && !f.gone_at.contains_key(c) {
+			if now >= t0 + g + 1 && !f.gone_at.contains_key(c) {
 				f.push(
 					format!("C06/not-reaped-at-expiry/{:?}", op_of_sig(*sig)),
 					format!("child #{c} signalled at t{t0} (log {ps}), grace {g}, still unreaped at quiescent t{now}"),
